@@ -21,6 +21,8 @@ for _o in range(6): _sem_min['numop_%d' % _o] = 1000
 for _o in range(1, 7): _sem_min['maskop_%d' % _o] = 200
 for _o in range(28): _sem_min['strop_%02d' % _o] = 100
 for _o in range(12): _sem_min['rawop_%02d' % _o] = 100
+for _k in ('wildcard_operands_with_escape_only', 'wildcard_operands_with_escape_and_wildcard', 'wildcard_operands_with_wildcard_only', 'wildcard_operands_numeric_range',
+           'wildcard_operands_negated', 'wildcard_operands_comma_list', 'wildcard_operands_ignorecase'): _sem_min[_k] = 150
 
 SPEC = dict(
     level='exploration',
@@ -46,7 +48,7 @@ SPEC = dict(
                  'hostile nesting stops at 2000 levels (deeper is the parser-recursion finding F6 of C02/C07); regex-bomb patterns (F10) are not generated here',
                  'g++ 12 ASan/UBSan/LSan and valgrind memcheck report what they claim to report; CPU budget per hostile case 20 CPU-seconds'],
     legs=[
-        Leg('regress', 'h_filter', 'asan', opts={'mode': 'regress'}, quick=1, thorough=1, workers=1, leaks=True, min_cases=8),
+        Leg('regress', 'h_filter', 'asan', opts={'mode': 'regress'}, quick=1, thorough=1, workers=1, leaks=True, min_cases=9),
         Leg('semantics', 'h_filter', 'asan', opts={'mode': 'semantics'}, quick=100000 * _S, thorough=6000000, workers=16, leaks=True),
         Leg('hostile', 'h_filter', 'asan', opts={'mode': 'hostile'}, quick=50000 * _S, thorough=3000000, workers=16, leaks=True, cpu_budget=20.0),
         Leg('memcheck', 'h_filter', 'plain', opts={'mode': 'semantics'}, quick=2000 * _S, thorough=120000, workers=16, valgrind=True),
